@@ -124,6 +124,47 @@ def _polarity(f, at_, region, op, want):
     return found
 
 
+def _map_polarity(prog, f, call):
+    """(negated?, from the helper's result?) of the Value::Bool that a
+    `.map(..)` on the result of `call` builds: `.map(Value::Bool)` or
+    `.map(|v| Value::Bool(!v))`."""
+    for u in ops.forward_users(f, call):
+        if (u.res or "").split("::")[-1] != "map" or len(u.args) < 2:
+            continue
+        k = mir.op_const(u.args[1])
+        if k is not None and k.get("fn") == VALUE + "::Bool":
+            return (False, True)
+        if not mir.is_place_operand(u.args[1]):
+            continue
+        cpu = f.canon_op(u.args[1])
+        if cpu[0][0] != "agg":
+            continue
+        kd_ = f.stmts(cpu[0][1])[cpu[0][2]][2][1]
+        hcl = prog.fns.get(kd_.get("def", "")) if kd_.get("k") == "closure" else None
+        if hcl is None or not hcl.full or hcl.natural_loops():
+            continue
+        bools = list(hcl.aggregates(VALUE, "Bool"))
+        if len(bools) != 1:
+            return None
+        o = bools[0][4][0]
+        is_neg = False
+        for _ in range(6):
+            if not mir.is_place_operand(o) or mir.op_place(o)[1]:
+                break
+            sd = hcl.single_def(mir.op_place(o)[0])
+            if sd is None or sd[2] != "rv":
+                break
+            if sd[3][0] == "un" and sd[3][1] == "Not":
+                is_neg = not is_neg
+                o = sd[3][2]
+            elif sd[3][0] == "use":
+                o = sd[3][1]
+            else:
+                break
+        return (is_neg, mir.is_place_operand(o) and hcl.canon_op(o) == (("arg", 2),))
+    return None
+
+
 def rule_R10_3(ctx):
     prog = ctx.prog
     r = RuleResult("R10.3", "`!=`/`!==` are the negation of the one result "
@@ -143,6 +184,34 @@ def rule_R10_3(ctx):
                   if st and {t[0] for t in st} <= {pos, neg}}
         calls = [c for c in f.calls() if c.bb in region and not c.is_ptr and c.res == g.path]
         r.inst("%s/%s: %d call(s) to %s" % (pos, neg, len(calls), g.path))
+        if len(calls) == 2:
+            # one call per operator, to the same helper on the same operands:
+            # the same (read-only, R10.1) traversal, so the two results agree
+            per = {}
+            for c_ in calls:
+                a_ = {t[0] for t in pt.vf.at(c_.bb)}
+                if len(a_) == 1:
+                    per[next(iter(a_))] = c_
+            same_args = len(per) == 2 and all(
+                len(c_.args) == 2 and ops.same_value(f.canon_op(c_.args[0]), lhs_p)
+                and ops.same_value(f.canon_op(c_.args[1]), rhs_p) for c_ in per.values())
+            if same_args:
+                r.inst("%s/%s: one call each to %s on (lhs, rhs)" % (pos, neg, g.path))
+                for op, negated in ((pos, False), (neg, True)):
+                    c_ = per[op]
+                    found = _map_polarity(prog, f, c_)
+                    if found is None:
+                        want_ = (("call", c_.bb), ("d", payload), ("f", 0))
+                        found = _polarity(f, lambda b_: {t[0] for t in pt.vf.at(b_)}, region, op, want_)
+                    if found is None:
+                        r.fail("%s | op=%s no-bool-result" % (f.path, op),
+                               "no boolean result is built specifically for %s" % op)
+                    elif found == (negated, True):
+                        r.ok()
+                    else:
+                        r.fail("%s | op=%s negated=%s from-helper=%s" % (f.path, op, found[0], found[1]),
+                               "%s must yield %sthe helper's result" % (op, "the negation of " if negated else ""))
+                continue
         if len(calls) != 1:
             r.fail("%s | %s/%s helper-calls=%d" % (f.path, pos, neg, len(calls)),
                    "%s and %s must share one call to %s" % (pos, neg, g.path))
